@@ -18,13 +18,16 @@ try:
     if rc != 0:
         res['patch_error'] = out[-300:]
     else:
-        rc, out = sh("go build ./... && go vet ./... && go test -vet=off -count=1 ./...", cwd=S)
+        props = os.environ.get('PROPS', '').split()
+        rc, out = (0, '') if props else sh("go build ./... && go vet ./... && go test -vet=off -count=1 ./...", cwd=S)
         res['suite_with'] = 'PASS' if rc == 0 else 'FAIL'
         if rc != 0: res['suite_tail'] = out[-600:]
         fired = {}
         exe = os.environ.get('PRUNNERLINT', '/verif/bin/prunnerlint')
         for i in range(1, 21):
             pid = f"C{i:02d}"
+            if props and pid not in props:
+                continue
             of = tempfile.mktemp(suffix='.json')
             rc, out = sh(f"{exe} -property {pid} -repo {S} -verif /verif -config linux/amd64 -obs-out {of}")
             try:
